@@ -20,8 +20,9 @@ import traceback
 
 from . import env
 
-REPLAY_DIR = os.path.join(env.VERIF_DIR, 'replays')
-EVIDENCE_DIR = os.path.join(env.VERIF_DIR, 'evidence')
+# (the two overrides exist so that sensitivity runs against mutated copies of the tree do not touch the committed evidence)
+REPLAY_DIR = os.environ.get('VERIF_REPLAY_DIR') or os.path.join(env.VERIF_DIR, 'replays')
+EVIDENCE_DIR = os.environ.get('VERIF_EVIDENCE_DIR') or os.path.join(env.VERIF_DIR, 'evidence')
 KNOWN_FILE = os.path.join(env.VERIF_DIR, 'known_findings.json')
 
 
